@@ -112,6 +112,29 @@ pub fn closest_case(cx: &mut Ctx, n: u64, case: &Value) {
     for (name, v) in g.variants() {
         judge(cx, "closest_point_variant", format!("variant {name} of g"), case, cp_cc(&v, &p), &w, 1.0);
     }
+    // the f32 scalar type at extreme magnitudes (exact power-of-two scalings 2^66 and 2^-83: the squares of the distances
+    // overflow / underflow f32, the distances themselves do not): still the right member of a multi-part geometry
+    if w.valid && !w.empty && case["g"].to_string().len() < 1500 {
+        use geo::MapCoords;
+        // (only point sets at the extreme scales: segments are projected with a squared length, which is outside the range of
+        // f32 there - a limit of the scalar type, not a question about the property)
+        let only_points = matches!(g, G::Point(_) | G::MultiPoint(_));
+        for sc in [2f32.powi(66), 2f32.powi(-83), 1.0f32] {
+            if sc != 1.0 && !only_points { continue; }
+            let gf: geo::Geometry<f32> = g.geometry().map_coords(|c| geo::Coord { x: c.x as f32 * sc, y: c.y as f32 * sc });
+            let pf = geo::Point::new(pc.x as f32 * sc, pc.y as f32 * sc);
+            let got = guard(|| gf.closest_point(&pf));
+            let ok = match &got {
+                Ok(Closest::Intersection(q)) => w.hit && *q == pf,
+                Ok(Closest::SinglePoint(q)) => !w.hit && w.near.iter().any(|a| ((q.x() / sc) as f64 - a.x).abs() <= 1e-4 * (1.0 + a.x.abs()) && ((q.y() / sc) as f64 - a.y).abs() <= 1e-4 * (1.0 + a.y.abs())),
+                Ok(Closest::Indeterminate) => w.ind,
+                Err(_) => false,
+            };
+            if ok { cx.ok("closest_point_f32_extreme_scale"); } else {
+                cx.bad("C12", "closest_point_f32_extreme_scale", case, json!({"what": format!("Geometry<f32> scaled by {sc:e}"), "got": format!("{got:?}"), "hit": w.hit, "near": w.near.iter().map(|c| [c.x, c.y]).collect::<Vec<_>>()}));
+            }
+        }
+    }
     // exact similarity maps: the whole configuration is mapped without rounding, the answer must map along.
     // tr_1e8 is left out: at offset 1e8 the representable spacing of the answer (1.5e-8) exceeds the tolerance.
     let maps: Vec<ExactMap> = exact_maps().into_iter().filter(|m| m.similarity().is_some() && m.name != "tr_1e8").collect();
